@@ -114,6 +114,9 @@ Fixpoint replay (cfg : config) (df ks : list key) (s : state) (steps : list (op 
       obs_match s' ks g ob && snap_ok cfg (snapshot_of s' ks) && replay cfg df ks s' rest
   end.
 
+(* run-length notation used by the harness for long runs of one byte (exact, see coqRLE) *)
+Definition rep (n : N) (b : byte) : bytes := repeat b (N.to_nat n).
+
 Inductive c09_case :=
 | SnapCase (cfg : config) (sn : snapshot)
 | ReplayCase (cfg : config) (ks dial_fail : list key) (steps : list (op * observed))
